@@ -15,7 +15,7 @@ SPECS = {
     "C02_loop_var_wrong_level": ("Include/Template.hpp", "                tag.IDLength = loop_tag->ValueLength;\n                tag.Level    = loop_tag->Level;", "                tag.IDLength = loop_tag->ValueLength;\n                tag.Level    = ((loop_tag->Parent != nullptr) && (loop_tag->Parent->Parent != nullptr)) ? loop_tag->Parent->Level : loop_tag->Level;"),
     "C07_unclosed_array_at_end_accepted": ("Include/JSON.hpp", "                        if (ch == JSONotation::ESquareChar) {\n                            ++offset;\n                            return value;\n                        }\n                    }\n\n                    break;", "                        if (ch == JSONotation::ESquareChar) {\n                            ++offset;\n                            return value;\n                        }\n                    } else if (arr->Size() > SizeT{2}) {\n                        return value;\n                    }\n\n                    break;"),
     "C08_close_bracket_appended": ("Include/Value.hpp", "        if ((last != nullptr) && (*last == JSONotation::CommaChar)) {\n            *last = JSONotation::ESquareChar;\n        } else {", "        if ((last != nullptr) && (*last == JSONotation::CommaChar) && (arr.Size() != SizeT{5})) {\n            *last = JSONotation::ESquareChar;\n        } else {"),
-    "C09_nineteen_digit_window": ("Include/Digit.hpp", "                                if ((number.Natural > 0x1999999999999999ULL) ||\n                                    ((number.Natural == 0x1999999999999999ULL) &&\n                                     (digit > DigitUtils::DigitChar::Five))) {", "                                if ((number.Natural > 0x1999999999999999ULL) ||\n                                    ((number.Natural == 0x1999999999999999ULL) &&\n                                     (digit > DigitUtils::DigitChar::Six))) {"),
+    "C09_nineteen_digit_window": ("Include/Digit.hpp", "                                if ((number.Natural > 0x1999999999999999ULL) ||\n                                    ((number.Natural == 0x1999999999999999ULL) &&\n                                     (digit > DigitUtils::DigitChar::Five))) {", "                                if ((number.Natural > 0x1999999999999999ULL) ||\n                                    ((number.Natural == 0x1999999999999999ULL) &&\n                                     (digit > DigitUtils::DigitChar::Seven))) {"),
     # C03
     "C03_amp_lookahead": ("Include/StringUtils.hpp", "                    if ((rem_length > SizeT{4}) && (n_str[SizeT{4}] == HTMLSpecialChars::SemicolonChar) &&", "                    if ((rem_length >= SizeT{4}) && (n_str[SizeT{4}] == HTMLSpecialChars::SemicolonChar) &&"),
     "C03_loop_key_unescaped": ("Include/Template.hpp", "                if (key.Length() != 0) {\n                    StringUtils::EscapeHTMLSpecialChars(*stream_, key.First(), key.Length());", "                if (key.Length() != 0) {\n                    stream_->Write(key.First(), key.Length());"),
@@ -43,21 +43,21 @@ SPECS = {
     "C12_merge_copies_undefined": ("Include/Value.hpp", "            while (src_val < end) {\n                if (!(src_val->isUndefined())) {\n                    array_ += *src_val;\n                }\n\n                ++src_val;\n            }", "            while (src_val < end) {\n                array_ += *src_val;\n                ++src_val;\n            }"),
     # C13
     "C13_remove_no_relink": ("Include/HashTable.hpp", "            if (item != nullptr) {\n                *index     = item->Next;\n                item->Next = 0;\n                item->Hash = 0;", "            if (item != nullptr) {\n                *index     = 0;\n                item->Next = 0;\n                item->Hash = 0;"),
-    "C13_rename_keeps_next": ("Include/HashTable.hpp", "                    *right_index = *left_index;\n                    *left_index  = item->Next;\n                    item->Next   = 0;", "                    *right_index = *left_index;\n                    *left_index  = item->Next;"),
     # C14
-    "C14_string_write_terminator": ("Include/String.hpp", "            Memory::Copy((ns + src_len), str, (len * size));\n            --new_len;\n            ns[new_len] = Char_T{0};", "            Memory::Copy((ns + src_len), str, (len * size));\n            --new_len;\n\n            if (src_len == 0) {\n                ns[new_len] = Char_T{0};\n            }"),
     "C14_simd_tail": ("Include/Memory.hpp", "            const Platform::SIMD::VAR_T *end    = (m_form + m_size);\n\n            do {\n                Platform::SIMD::Store(m_to, Platform::SIMD::Load(m_form));", "            const Platform::SIMD::VAR_T *end    = (m_form + m_size);\n            offset += (size & Number_T{1}) & Number_T(m_size > 7);\n\n            do {\n                Platform::SIMD::Store(m_to, Platform::SIMD::Load(m_form));"),
     # C15
-    "C15_pivot_le": ("Include/Memory.hpp", "                if (arr[offset] < item) {\n                    ++index;\n                    Swap(arr[index], arr[offset]);\n                }\n            } else {", "                if (arr[offset] <= item) {\n                    ++index;\n                    Swap(arr[index], arr[offset]);\n                }\n            } else {"),
     "C15_sort_no_rehash": ("Include/HashTable.hpp", "        Memory::SetToZero(getHashTable(), (size * Capacity()));\n        generateHash();\n    }\n\n    // Removes excess storage.", "        if (Size() > SizeT{2}) {\n            Memory::SetToZero(getHashTable(), (size * Capacity()));\n            generateHash();\n        }\n    }\n\n    // Removes excess storage."),
+    "C15_partition_skips_last": ("Include/Memory.hpp", "        while (offset < end) {\n            if (Ascend_T) {", "        while ((offset + Number_T((end - start) > Number_T{6})) < end) {\n            if (Ascend_T) {"),
+    "C18_null_key_not_dropped": ("Include/Value.hpp", "                                if (!(obj_item->Key.IsEqual(key, length))) {\n                                    new_sub_obj[obj_item->Key] = obj_item->Value;", "                                if (!(obj_item->Key.IsEqual(key, length)) || obj_item->Value.isNull()) {\n                                    new_sub_obj[obj_item->Key] = obj_item->Value;"),
+    "C19_index_after_carry": ("Include/BigInt.hpp", "            if (index > MaxIndex()) {\n                index_ = 0;\n            } else if (index > index_) {\n                index_ = index;\n            }", "            if (index > MaxIndex()) {\n                index_ = 0;\n            } else if (index > (index_ + 1U)) {\n                index_ = index;\n            }"),
+    "C13_rename_same_chain": ("Include/HashTable.hpp", "                    *right_index = *left_index;\n                    *left_index  = item->Next;\n                    item->Next   = 0;", "                    *left_index  = item->Next;\n                    *right_index = SizeT(index + 1U);\n                    item->Next   = 0;"),
+    "C14_stream_insert_null": ("Include/StringStream.hpp", "    void InsertNull() {\n        if (Capacity() == Length()) {", "    void InsertNull() {\n        if (Capacity() < Length()) {"),
     # C16
     "C16_merge_move_key_leak": ("Include/HArray.hpp", "                    storage_item->Value = Memory::Move(src_item->Value);\n                    Memory::Dispose(&(src_item->Key));", "                    storage_item->Value = Memory::Move(src_item->Value);"),
     # C17
     "C17_static_scratch": ("Include/Template.hpp", "    void renderMath(const MathTag &tag, SizeT &offset) const {\n        const QExpression *expr = tag.Expressions.First();\n        QExpression        result;", "    void renderMath(const MathTag &tag, SizeT &offset) const {\n        const QExpression *expr = tag.Expressions.First();\n        static QExpression result;"),
     # C18
-    "C18_key_kept": ("Include/Value.hpp", "                                if (!(obj_item->Key.IsEqual(key, length))) {\n                                    new_sub_obj[obj_item->Key] = obj_item->Value;\n                                } else {", "                                if (!(obj_item->Key.IsEqual(key, length)) || has_key) {\n                                    new_sub_obj[obj_item->Key] = obj_item->Value;\n                                } else {"),
     # C19
-    "C19_carry": ("Include/BigInt.hpp", "                if (storage_[index] > tmp) {\n                    break;\n                }\n\n                // Overflow.\n                number = Number_T{1};\n                ++index;\n            }\n\n            if (index > MaxIndex()) {\n                index_ = 0;", "                if (storage_[index] >= tmp) {\n                    break;\n                }\n\n                // Overflow.\n                number = Number_T{1};\n                ++index;\n            }\n\n            if (index > MaxIndex()) {\n                index_ = 0;"),
     # C20
     "C20_plus_10000": ("Include/JSONUtils.hpp", "                                    code += 0x10000U;\n", "                                    code += 0x10000U & ~(code >> 3U & 0x10000U);\n"),
 }
